@@ -1,1 +1,150 @@
-/-! Property theorems for C03 (stub: not built yet). -/
+import UsualProofs.C03.RoundTrip
+import UsualProofs.C03.BuildInv
+/-!
+# C03 — JSON render/parse round trip and builder consistency
+
+Property-level theorems only.  Models: `Usual/C03/Render.lean` (= `json_render`),
+`Usual/C03/Build.lean` (= the builder API; dicts are the crit-bit tree model of C06),
+specification: `Usual/C03/Rfc.lean` (RFC 8259 / RFC 3629 reference recogniser–evaluator) and
+`Usual/C03/Value.lean`.  The models are tied to `usual/json.c` by the correspondence run of
+`checks/C03.py` (driver `Driver/C03.lean` vs `harness/C03/h.c`).
+
+Reading guide:
+* `v.wf` — integers within ±(2^53−1), finite doubles, valid NUL-free UTF-8 strings and names,
+  names of every dict strictly ascending bytewise (the order `json_dict_iter` visits them).
+  `built_wf` shows that every tree the builder can produce satisfies it.
+* `fmt17 : UInt64 → Bytes` is what `snprintf("%.17g")` prints for a double given by its bits,
+  `strtod : Bytes → Option UInt64` what `strtod` reads.  The two facts about the libc the round
+  trip needs are explicit hypotheses, *not proved* (they are checked on every double a check run
+  uses): `hsyn` — the rendered text is an RFC 8259 number token with a fraction or exponent;
+  `hf` — `strtod` maps it back to the same bits.
+* Nesting depth: no theorem needs a bound.  `json.c`'s parser is iterative (parent pointers, no
+  nesting limit); `json_render` recurses once per level, which is what the property's "depth up
+  to 512" keeps within the C stack — the run exercises depth 512, the model has no stack.
+* Builder histories are *all* finite sequences of `Op` (every public constructor / append / put
+  call, with NULL or dangling arguments, duplicate keys, already attached values, invalid
+  strings, out-of-range numbers), starting from the empty context; `f2fixed = true` is the
+  repaired code (fixes/F02-json-dict-size.patch), `false` the code as found.
+-/
+namespace UsualProps.C03
+open Usual.C03
+open Usual.C03.Rfc (parse)
+
+/-! ## strings -/
+
+/-- **escape / unescape.**  For every valid NUL-free UTF-8 string, un-escaping the string
+literal `json_render` writes (RFC 8259 §7 grammar, all escapes incl. surrogate pairs) gives the
+string back, byte for byte. -/
+theorem escape_unescape (s rest : Bytes) (hs : validString s = true) :
+    ∃ body, renderString s = 0x22 :: body ∧ Rfc.string (body ++ rest) = some (s, rest) := by
+  refine ⟨escBody 0 s ++ [0x22], rfl, ?_⟩
+  simpa using string_escBody s rest hs
+
+/-- non-vacuity: controls, quote, backslash, DEL, 2/3/4-byte sequences, U+2028, U+2029 -/
+example : validString [0x01, 0x0A, 0x22, 0x5C, 0x2F, 0x7F, 0xC2, 0x80, 0xE2, 0x80, 0xA8, 0xE2, 0x80, 0xA9,
+    0xEF, 0xBF, 0xBF, 0xF4, 0x8F, 0xBF, 0xBF] = true := by decide
+example : renderString [0x01, 0x0A, 0xE2, 0x80, 0xA8, 0x41] =
+    [0x22, 0x5C, 0x75, 0x30, 0x30, 0x30, 0x31, 0x5C, 0x6E, 0x5C, 0x75, 0x32, 0x30, 0x32, 0x38, 0x41, 0x22] := by
+  decide
+
+/-! ## render / parse -/
+
+/-- **json_render emits an RFC 8259 document.**  Pure recognition (`strtod` replaced by a
+constant: only the syntax matters), under the syntactic hypothesis on `%.17g`. -/
+theorem render_is_rfc (fmt17 : UInt64 → Bytes)
+    (hsyn : ∀ x, isFinite x = true → floatTok (renderFloat fmt17 x) = true)
+    (v : JVal) (hv : v.wf = true) :
+    Rfc.valid (fun _ => some 0) (render fmt17 v) := by
+  have H : FloatHyp (fun _ => some 0) fmt17 (fun _ => 0) :=
+    fun x hx => ⟨hsyn x hx, rfl, (by decide : Rfc.isFiniteBits 0 = true)⟩
+  simp [Rfc.valid, parse_render _ fmt17 _ H v hv]
+
+/-- **Round trip.**  Parsing the rendered document yields a structurally equal tree: same types,
+equal integers, bit-identical doubles (including subnormals and −0.0: `hf` is about bits),
+byte-identical strings, list order, equal members. -/
+theorem render_parse_roundtrip (strtod : Bytes → Option UInt64) (fmt17 : UInt64 → Bytes)
+    (hsyn : ∀ x, isFinite x = true → floatTok (renderFloat fmt17 x) = true)
+    (hf : ∀ x, isFinite x = true → strtod (renderFloat fmt17 x) = some x)
+    (v : JVal) (hv : v.wf = true) :
+    Rfc.parse strtod (render fmt17 v) = some v := by
+  have H : FloatHyp strtod fmt17 id := fun x hx => ⟨hsyn x hx, hf x hx, hx⟩
+  rw [parse_render strtod fmt17 id H v hv, JVal.mapF_id]
+
+/-- non-vacuity: the hypotheses are satisfiable for *all* doubles (bit pattern in decimal + `.0`
+as `%.17g`), and a tree with every kind of node, a subnormal, −0.0 and U+2028 is well-formed -/
+example : (∀ x, isFinite x = true → floatTok (renderFloat fmtCanon x) = true) ∧
+    (∀ x, isFinite x = true → sdCanon (renderFloat fmtCanon x) = some x) :=
+  ⟨fun x _ => by rw [renderFloat_canon]; exact floatTok_canon x,
+   fun x _ => by rw [renderFloat_canon]; exact sdCanon_canon x⟩
+example : (JVal.dict [([], .list [.int (-9007199254740991), .float 1, .float 0x8000000000000000, .null]),
+    ([0x61], .str [0xE2, 0x80, 0xA8, 0x0A]), ([0x61, 0x62], .dict []), ([0x62], .bool true)]).wf = true := by
+  decide
+
+/-! ## builder -/
+
+/-- heaps reachable by builder calls from a fresh context (repaired code) -/
+def reach (ops : List Op) : Heap := (Heap.run true {} ops).1
+
+/-- **json_value_size = number of elements iteration visits**, in every state reachable by any
+sequence of builder calls including failing ones, for every container. -/
+theorem size_eq_iter (ops : List Op) (p : Option Nat) (l : List Nat)
+    (hl : (reach ops).iter p = some l) : (reach ops).valueSize p = l.length :=
+  (SizeInv.run SizeInv.empty ops).size_eq_iter p l hl
+
+/-- non-vacuity: duplicate key, invalid UTF-8 key, out-of-range int, NaN, re-attachment, NULL -/
+example : let h := reach [.newDict, .newList, .putS 0 [0x61] (.int 1), .putS 0 [0x61] (.int 2),
+      .putS 0 [0xC0] .null, .putS 0 [0x62] (.int (2 ^ 53)), .putS 0 [0x62] (.float 0x7FF8000000000000),
+      .put (some 0) [0x63] (some 1), .put (some 0) [0x64] (some 1), .append (some 1) none,
+      .appendS 1 (.str [0x80]), .appendS 1 (.str [0x41])]
+    h.iter (some 0) = some [2, 1] ∧ h.valueSize (some 0) = 2 ∧ h.iter (some 1) = some [5] := by
+  decide
+
+/-- **Defect F2 (code as found).**  With `v_size++` before `cbtree_insert`, a refused duplicate
+`json_dict_put` leaves `json_value_size` = 2 while iteration visits 1 element. -/
+theorem size_eq_iter_fails_before_F2 :
+    ∃ ops p l, let h := (Heap.run false {} ops).1
+      h.iter p = some l ∧ h.valueSize p ≠ l.length :=
+  ⟨[.newDict, .putS 0 [0x61] (.int 1), .putS 0 [0x61] (.int 2)], some 0, [1], by decide⟩
+
+/-- **A value is attached to at most one container**: in every reachable state every value is
+linked (as list element or dict member, counted with multiplicity over all containers) at most
+once, and a value still `UNATTACHED` is linked from nowhere. -/
+theorem attach_at_most_once (ops : List Op) (id : Nat) :
+    occ (reach ops) id ≤ 1 ∧ (¬ isAtt (reach ops) id → occ (reach ops) id = 0) :=
+  (AttInv.run AttInv.empty ops) id
+
+/-- … and an attached value is refused by both attaching calls, which then change nothing. -/
+theorem attach_refused (h : Heap) (l d : Option Nat) (key : Bytes) (v : Nat)
+    (ha : isAtt h v) :
+    h.listAppend l (some v) = (h, false) ∧ h.dictPut true d key (some v) = (h, false) := by
+  obtain ⟨vc, hvc, hatt⟩ := ha
+  constructor
+  · rcases listAppend_cases h l (some v) with e | ⟨vi, vc', _, _, _, _, hv, _, hc, hf, _, _⟩
+    · exact e
+    · cases hv; rw [hvc] at hc; cases hc; rw [hatt] at hf; cases hf
+  · rcases dictPut_cases h d key (some v) with e | ⟨vi, vc', _, _, _, _, _, hv, _, hc, hf, _, _⟩
+    · exact e
+    · cases hv; rw [hvc] at hc; cases hc; rw [hatt] at hf; cases hf
+
+example : let h := reach [.newList, .newList, .new (.int 7), .append (some 0) (some 2), .append (some 1) (some 2)]
+    occ h 2 = 1 ∧ h.iter (some 0) = some [2] ∧ h.iter (some 1) = some [] := by decide
+
+/-- **Everything the builder can produce is well-formed** (hence renders to an RFC document that
+parses back to the same tree): the value tree hanging off any cell of any reachable heap. -/
+theorem built_wf (ops : List Op) (i : Nat) (v : JVal) (hv : (reach ops).value i = some v) :
+    v.wf = true :=
+  toVal_wf (SizeInv.run SizeInv.empty ops) _ i v hv
+
+/-- round trip for trees built through the API -/
+theorem built_roundtrip (strtod : Bytes → Option UInt64) (fmt17 : UInt64 → Bytes)
+    (hsyn : ∀ x, isFinite x = true → floatTok (renderFloat fmt17 x) = true)
+    (hf : ∀ x, isFinite x = true → strtod (renderFloat fmt17 x) = some x)
+    (ops : List Op) (i : Nat) (v : JVal) (hv : (reach ops).value i = some v) :
+    Rfc.parse strtod (render fmt17 v) = some v :=
+  render_parse_roundtrip strtod fmt17 hsyn hf v (built_wf ops i v hv)
+
+example : (reach [.newDict, .newList, .putS 0 [0x62] (.float 1), .put (some 0) [0x61] (some 1),
+      .appendS 1 (.str [0xE2, 0x80, 0xA9]), .appendS 1 .null]).value 0 =
+    some (.dict [([0x61], .list [.str [0xE2, 0x80, 0xA9], .null]), ([0x62], .float 1)]) := by decide
+
+end UsualProps.C03
